@@ -909,9 +909,9 @@ class PathEval:
                     if isinstance(b.value, ast.Name) and any(a[0] == b.value.id for a in appends) and guard is None:
                         aliases.append((b.targets[0].id, b.value.id))
                         continue
-                    if guard is not None:
+                    if guard is not None and b.targets[0].id in local:
                         return False
-                    local[b.targets[0].id] = sub(b.value)
+                    local[b.targets[0].id] = sub(b.value)       # (a temporary first bound under the guard is only used under it)
                     continue
                 if isinstance(b, ast.Assign) and len(b.targets) == 1 and isinstance(b.targets[0], ast.Tuple) and all(isinstance(x, ast.Name) for x in b.targets[0].elts) and guard is None:
                     v = sub(b.value)
@@ -944,8 +944,11 @@ class PathEval:
                             return False
                         continue
                 if isinstance(b, ast.If) and not b.orelse and guard is None:
+                    before = set(local)
                     if not walk(b.body, sub(b.test)):
                         return False
+                    for k in set(local) - before:
+                        del local[k]          # bound under the guard only: not a value after it
                     continue
                 if isinstance(b, ast.If) and guard is None and len(b.body) == 1 and len(b.orelse) == 1:
                     # if c: acc.append(A) else: acc.append(B)   ->   acc.append(A if c else B)
@@ -1068,6 +1071,53 @@ class PathEval:
         self.env[top] = ast.fix_missing_locations(ast.Call(func=ast.Name('__max__', ast.Load()), args=[copy.deepcopy(gen)], keywords=copy.deepcopy(kw)))
         self.env[f] = None
         return True
+
+    def _unroll_literal_loop(self, s: ast.For):
+        """for T in (e1, e2, ...): body   with a short literal tuple / list of simple expressions: the body is run once per element, in order
+        (break / continue honoured).  Returns False when the loop is not of that kind, else what _stmt0 returns."""
+        it = self.subst(s.iter)
+        if not isinstance(it, (ast.Tuple, ast.List)) or not (0 < len(it.elts) <= 6):
+            return False
+
+        def simple(x, depth=0):
+            if isinstance(x, (ast.Constant, ast.Name)):
+                return True
+            if isinstance(x, ast.Attribute):
+                return simple(x.value, depth)
+            if isinstance(x, (ast.Tuple, ast.List)) and depth < 2:
+                return all(simple(y, depth + 1) for y in x.elts)
+            if isinstance(x, ast.BinOp):
+                return simple(x.left, depth) and simple(x.right, depth)
+            if isinstance(x, ast.UnaryOp):
+                return simple(x.operand, depth)
+            return False
+        if not all(simple(x) for x in it.elts):
+            return False
+        tnames = [x.id for x in ast.walk(s.target) if isinstance(x, ast.Name)]
+        if not tnames:
+            return False
+        # one copy of the body per element (kept on the loop node: forked assumptions are keyed by the test node, and the same test is a
+        # different test in every round)
+        copies = getattr(s, '_unrolled', None)
+        if copies is None or len(copies) != len(it.elts):
+            copies = [copy.deepcopy(s.body) for _ in it.elts]
+            s._unrolled = copies
+        for elt, body_i in zip(it.elts, copies):
+            if isinstance(s.target, ast.Name):
+                self.env[s.target.id] = copy.deepcopy(elt)
+            elif not self._bind_unpack(s.target, copy.deepcopy(elt)):
+                return False
+            if self.block(body_i):
+                if self.res.unknown is not None:
+                    return 'end'
+                if self.res.ended == 'break':
+                    self.res.ended = None
+                    break
+                if self.res.ended == 'continue':
+                    self.res.ended = None
+                    continue
+                return 'end'
+        return None
 
     def _fold_loop(self, s: ast.For) -> bool:
         """for T in IT: [temps]; acc += f(T)   (or acc = acc + f(T) / acc = acc.add(f(T)))   ->   acc = acc0 + __fold_add__(f(T) for T in IT)"""
@@ -1284,8 +1334,8 @@ class PathEval:
         def sub_obj(e):
             """like sub(), but a container built in this function keeps its name (it denotes the object, not its initial value)"""
             root = e
-            while isinstance(root, (ast.Subscript, ast.Attribute)):
-                root = root.value
+            while isinstance(root, (ast.Subscript, ast.Attribute, ast.Call)):
+                root = root.func if isinstance(root, ast.Call) else root.value      # d.setdefault(k, []) denotes a part of d
             if isinstance(root, ast.Name) and root.id not in local and self._is_value(self.env.get(root.id)):
                 env2 = {k: v for k, v in self.env.items() if k != root.id}
                 return ast.fix_missing_locations(_Subst({**env2, **local}).visit(copy.deepcopy(e)))
@@ -1633,6 +1683,10 @@ class PathEval:
                         and not any(isinstance(x, ast.Name) and x.id == a0.key.id for x in ast.walk(a0.value)):
                     self.res.updates.append(dict(kind='storeall', target=self.subst(s.value.func.value), over=self.subst(a0.generators[0].iter), key=None, value=self.subst(a0.value), node=s))
                     return None
+            if isinstance(s, ast.For) and not s.orelse:
+                r_ = self._unroll_literal_loop(s)
+                if r_ is not False:
+                    return r_
             if isinstance(s, ast.For) and not s.orelse and self._argmax_loop(s):
                 self._summarised = True
                 return None
